@@ -101,6 +101,9 @@ type ScriptTarget struct {
 	Log      *Log
 	// Partial makes deliveries implement module.PartialDelivery.
 	Partial bool
+	// ExplicitOK makes a partial delivery report successes too (SetStatus(rcpt, nil)),
+	// as target.remote and target.lmtp do; by default only failures are reported.
+	ExplicitOK bool
 	// Script returns the error to inject at a point (nil = ok). May be nil.
 	Script func(p Point) error
 	// Hook, if set, is called inside every stage after the call event was
@@ -315,7 +318,7 @@ func (d *partialDelivery) BodyNonAtomic(ctx context.Context, c module.StatusColl
 			err = d.t.script(d.point(StStatus, r, i))
 		}
 		d.t.Log.Add(Event{Kind: "status", Target: d.t.InstName, Delivery: d.ID, Attempt: d.Attempt, MsgID: d.MsgID, Rcpt: r, Err: errStr(err), Class: Classify(err)})
-		if err != nil {
+		if err != nil || d.t.ExplicitOK {
 			c.SetStatus(r, err)
 		}
 	}
